@@ -7,7 +7,7 @@ from .core import Tree, REPO, AnalysisError
 from .selftest import swap_if_else
 
 ALL_KINDS = ["rename", "swapif", "log", "augassign", "swapeq", "range0", "temp", "swapand", "elsereturn", "noop", "cmpflip", "noteq", "nestif", "guardcont",
-             "nameconst", "lenzero", "ifexp", "tupleassign", "swapstmt", "returnelse", "kwargs", "extract", "renameparam", "renamemethod", "renameattr"]
+             "nameconst", "lenzero", "ifexp", "tupleassign", "swapstmt", "returnelse", "kwargs", "extract", "renameparam", "renamemethod", "renameattr", "fromhex", "libkw"]
 EXTRA_KINDS = []  # hand tool only until silent
 KINDS = list(ALL_KINDS)
 def functions(mod):
@@ -165,6 +165,18 @@ def gen_variants(files=None, kinds=None):
                     if isinstance(n, ast.Call) and _kwargs_able(n, t, m):
                         out.append((m.relpath, "kwargs", fi, k))
                         k += 1
+            if "fromhex" in KINDS:
+                k = 0
+                for n in ast.walk(fn):
+                    if _is_fromhex(n):
+                        out.append((m.relpath, "fromhex", fi, k))
+                        k += 1
+            if "libkw" in KINDS:
+                k = 0
+                for n in ast.walk(fn):
+                    if _is_byteorder_call(n):
+                        out.append((m.relpath, "libkw", fi, k))
+                        k += 1
             if "renamemethod" in KINDS and not fn.name.startswith("__"):
                 out.append((m.relpath, "renamemethod", fi, fn.name))
             if "renameparam" in KINDS:
@@ -268,6 +280,16 @@ def _extractable(fn):
             continue  # rebinding of an outer local would be lost
         out.append(i)
     return out
+
+
+def _is_fromhex(n):
+    return isinstance(n, ast.Call) and isinstance(n.func, ast.Attribute) and n.func.attr == "fromhex" and isinstance(n.func.value, ast.Name) and n.func.value.id in ("bytes", "bytearray") \
+        and len(n.args) == 1 and isinstance(n.args[0], ast.Constant) and isinstance(n.args[0].value, str) and n.func.value.id == "bytes"
+
+
+def _is_byteorder_call(n):
+    return isinstance(n, ast.Call) and isinstance(n.func, ast.Attribute) and n.func.attr in ("from_bytes", "to_bytes") and not n.keywords \
+        and n.args and isinstance(n.args[-1], ast.Constant) and n.args[-1].value in ("big", "little")
 
 
 def _swappable(a, b):
@@ -654,6 +676,23 @@ def apply(v):
                 break
         if not placed:
             return None
+    elif kind == "fromhex":
+        k = 0
+        for n in ast.walk(fn):
+            if _is_fromhex(n):
+                if k == arg:
+                    _replace_node(fn, n, ast.Constant(bytes.fromhex(n.args[0].value)))
+                    break
+                k += 1
+    elif kind == "libkw":
+        k = 0
+        for n in ast.walk(fn):
+            if _is_byteorder_call(n):
+                if k == arg:
+                    n.keywords = [ast.keyword(arg="byteorder", value=n.args[-1])]
+                    n.args = n.args[:-1]
+                    break
+                k += 1
     ast.fix_missing_locations(mod)
     return ast.unparse(mod), fn.name
 
